@@ -139,6 +139,8 @@ pub struct RunResult {
     pub log: Vec<Rec>,
     pub models: Vec<NodeModel>,
     pub settled: bool,
+    /// every op and the wind-down were executed (a failure, if any, comes from the final checks): the history is complete
+    pub complete: bool,
     /// per node: peer ids
     pub peers: Vec<PeerId>,
     /// (node, link a-side closed?, close_polled?, auth, conn) for every link
@@ -875,6 +877,7 @@ where
         settled &= it.settle();
     }
     let recs: Vec<Rec> = it.w.log.lock().unwrap().recs.clone();
+    let complete = it.fails.is_empty();
     if it.fails.is_empty() && settled {
         final_checks(&mut it, &recs, case);
     }
@@ -909,7 +912,7 @@ where
         }
     }
     let events = it.w.nodes.iter().map(|n| n.events.clone()).collect();
-    let res = RunResult { fails: it.fails, flags: it.flags, events, log: recs, models: it.m, settled, peers, links, handlers, emissions: it.emissions };
+    let res = RunResult { fails: it.fails, flags: it.flags, events, log: recs, models: it.m, settled, complete, peers, links, handlers, emissions: it.emissions };
     drop(it.w);
     release_phantoms();
     res
